@@ -78,8 +78,8 @@ type worldDef struct {
 
 // fetchName is the name by which a fresh clone (that only has a local branch for what it checked out) can name ref.
 func fetchName(ref string) string {
-	if ref == "feature" {
-		return "origin/feature"
+	if ref == "feature" || strings.HasPrefix(ref, "gitlink-") {
+		return "origin/" + ref
 	}
 	return ref
 }
@@ -239,6 +239,7 @@ type env struct {
 	gitPath string
 	fmu     sync.Mutex
 	faults  map[string]int // per fault endpoint: how often the fault position was reached
+	ranges  map[string]int // per Range-behaviour endpoint: how many storage GETs for the object carried a Range header
 }
 
 type builtWorldEntry struct {
@@ -428,6 +429,9 @@ func (ev *env) installServerHook() {
 				w.WriteHeader(500)
 				w.Write([]byte(`{"message":"internal error"}`))
 				return true
+			}
+			if strings.HasPrefix(kind, "range-") {
+				return ev.serveRange(s, w, r, kind, tag, foid)
 			}
 		}
 		return false
